@@ -388,6 +388,9 @@ pub struct ConnectCase {
     /// the local address is 0.0.0.0:port instead of 127.0.0.1:port
     pub local_any: bool,
     pub async_api: bool,
+    /// udp with a local address: another socket holds that very port while connect runs (LFS's reply port still held by an
+    /// earlier connection, or by another program)
+    pub occupied: bool,
 }
 
 fn free_udp_port() -> Option<u16> {
@@ -455,7 +458,12 @@ impl Part for Connect {
                 std::process::exit(2);
             }).unwrap();
             let addr = peer.local_addr().unwrap();
-            let local = if c.with_local { free_udp_port() } else { None };
+            // an occupier keeps the configured port bound (on the address connect will bind: exclusive either way)
+            let occupier = if c.with_local && c.occupied { std::net::UdpSocket::bind(if c.local_any { "0.0.0.0:0" } else { "127.0.0.1:0" }).ok() } else { None };
+            let local = match &occupier {
+                Some(o) => o.local_addr().ok().map(|a| a.port()),
+                None => if c.with_local { free_udp_port() } else { None },
+            };
             ops.push(match local {
                 Some(p) if c.local_any => Op::UdpAny(p),
                 l => Op::Udp(l),
@@ -477,6 +485,17 @@ impl Part for Connect {
                     fail!(sig, "udp connect (local address {:?}) panicked: {p}", local);
                 },
                 Ok(Err(e)) => {
+                    if occupier.is_some() {
+                        // refusing to connect is fine - provided nothing went out
+                        peer.set_nonblocking(true).unwrap();
+                        let mut buf = [0u8; 2048];
+                        if let Ok(n) = peer.recv(&mut buf) {
+                            fail!("c18:handshake-differs-from-configuration", "udp connect with the local port {:?} held by another socket failed ({e}), yet the peer received {}", local, hex(&buf[..n]));
+                        }
+                        ev.class("local port held by another socket: connect refused, nothing sent");
+                        ev.nontrivial(&format!("{c:?}"));
+                        return Ok(());
+                    }
                     if e.contains("in use") || e.contains("AddrInUse") {
                         ev.class("skipped: local port taken meanwhile");
                         return Ok(());
@@ -527,10 +546,10 @@ impl Part for Connect {
         Ok(())
     }
     fn to_json(&self, c: &ConnectCase) -> Value {
-        json!({"calls": ops_json(&c.ops), "calls_after_transport": ops_json(&c.post), "local_any": c.local_any, "udp": c.udp, "with_local": c.with_local, "async": c.async_api})
+        json!({"calls": ops_json(&c.ops), "calls_after_transport": ops_json(&c.post), "local_any": c.local_any, "udp": c.udp, "with_local": c.with_local, "async": c.async_api, "occupied": c.occupied})
     }
     fn from_json(&self, v: &Value) -> Option<ConnectCase> {
-        Some(ConnectCase { ops: ops_from(v.get("calls")?)?, post: v.get("calls_after_transport").and_then(ops_from).unwrap_or_default(), local_any: v.get("local_any").and_then(|x| x.as_bool()).unwrap_or(false), udp: v.get("udp")?.as_bool()?, with_local: v.get("with_local")?.as_bool()?, async_api: v.get("async")?.as_bool()? })
+        Some(ConnectCase { ops: ops_from(v.get("calls")?)?, post: v.get("calls_after_transport").and_then(ops_from).unwrap_or_default(), local_any: v.get("local_any").and_then(|x| x.as_bool()).unwrap_or(false), udp: v.get("udp")?.as_bool()?, with_local: v.get("with_local")?.as_bool()?, async_api: v.get("async")?.as_bool()?, occupied: v.get("occupied").and_then(|x| x.as_bool()).unwrap_or(false) })
     }
 }
 
@@ -597,8 +616,8 @@ pub fn run(run: &mut Run) {
     let n = run.budget(200_000, 5_000_000);
     run.prop(&IsiModel, proptest::collection::vec(op_strategy(true), 0..25), n);
     run.max_shrink_iters = 200;
-    let strat = (proptest::collection::vec(prop_oneof![8 => op_strategy(false), 1 => Just(Op::Relay)], 0..12), proptest::collection::vec(op_strategy(false), 0..5), any::<bool>(), any::<bool>(), any::<bool>(), any::<bool>())
-        .prop_map(|(ops, post, udp, with_local, local_any, async_api)| ConnectCase { ops, post, udp, with_local, local_any, async_api });
+    let strat = (proptest::collection::vec(prop_oneof![8 => op_strategy(false), 1 => Just(Op::Relay)], 0..12), proptest::collection::vec(op_strategy(false), 0..5), any::<bool>(), any::<bool>(), any::<bool>(), any::<bool>(), prop::bool::weighted(0.25))
+        .prop_map(|(ops, post, udp, with_local, local_any, async_api, occupied)| ConnectCase { ops, post, udp, with_local, local_any, async_api, occupied });
     let n = run.budget(600, 20_000);
     run.prop(&Connect, strat, n);
 }
